@@ -16,6 +16,9 @@ func strconvQuoteToASCII(s string) string { return strconv.QuoteToASCII(s) }
 var (
 	reTagName = smt.ReConcat(smt.ReRange('a', 'z'),
 		smt.ReStar(smt.ReUnion(smt.ReRange(1, 8), smt.ReRange(14, 31), smt.ReRange(33, '/'-1), smt.ReRange('/'+1, '>'-1), smt.ReRange('>'+1, 'A'-1), smt.ReRange('Z'+1, 0x7f))))
+	// tag names in the non-ASCII pass: the tokenizer folds A-Z only and keeps other bytes
+	reTagNameWide = smt.ReConcat(smt.ReRange('a', 'z'),
+		smt.ReStar(smt.ReUnion(smt.ReRange(1, 8), smt.ReRange(14, 31), smt.ReRange(33, '/'-1), smt.ReRange('/'+1, '>'-1), smt.ReRange('>'+1, 'A'-1), smt.ReRange('Z'+1, 0x7f), reWideExtra)))
 	reAttrKey = smt.RePlus(smt.ReUnion(smt.ReRange(1, 8), smt.ReRange(14, 31), smt.ReRange(33, '/'-1), smt.ReRange('/'+1, '='-1), smt.ReLit("?"), smt.ReLit("@"), smt.ReRange('Z'+1, 0x7f)))
 )
 
@@ -47,15 +50,25 @@ func registerTokenizer(in *Interp) {
 					ti.Data = st.fresh(pre+".data", smt.String)
 					switch kind {
 					case "StartTag", "EndTag", "SelfClosing":
-						st.assume(smt.InRe(ti.Data, reTagName))
+						if WideNames {
+							st.assume(smt.InRe(ti.Data, reTagNameWide))
+						} else {
+							st.assume(smt.InRe(ti.Data, reTagName))
+						}
 					case "Text":
 						st.assume(smt.Not(smt.Eq(ti.Data, smt.StrC(""))))
+					}
+					if WideNames && kind != "StartTag" && kind != "EndTag" && kind != "SelfClosing" {
+						st.assume(smt.ASCII(ti.Data))
 					}
 				}
 				for i := 0; i < nattr; i++ {
 					k := st.fresh(fmt.Sprintf("%s.k%d", pre, i), smt.String)
 					v := st.fresh(fmt.Sprintf("%s.v%d", pre, i), smt.String)
 					st.assume(smt.InRe(k, reAttrKey))
+					if WideNames {
+						st.assume(smt.ASCII(v))
+					}
 					ti.Keys = append(ti.Keys, k)
 					ti.Vals = append(ti.Vals, v)
 				}
